@@ -7,7 +7,7 @@
                              phi^|S| (1-phi)^(|E|-|S|) prod_{v in comp_S(r), v <> r} u v
      auto_step / run_history the evaluator object with its two structure-only caches
      c15_checkb              the verified checker the harness runs on the implementation's polynomial. *)
-From Coq Require Import List ZArith QArith Bool Arith Ring_polynom.
+From Coq Require Import List ZArith QArith Bool Arith Ring_polynom Permutation.
 From GV Require Import Lib.Tree Lib.PolyRefl15 Lib.Graph15 Model.AutoEq Proofs.AutoEqP Proofs.AutoEqR.
 Import ListNotations.
 Local Open Scope nat_scope.
@@ -35,6 +35,40 @@ Example C15_identity_nonvacuous :
   In [(0,1);(0,2);(1,2);(1,3);(2,3)] (sublists (all_pairs 4)) /\
   length (pe_monos (auto_expr ([0;1;2;3], [(0,1);(0,2);(1,2);(1,3);(2,3)]) 1)) = 32.
 Proof. vm_compute. repeat split. tauto. Qed.
+
+(* GENERAL (any graph size, any schedule): whatever order [ord] the candidate sets are iterated in (any
+   function returning a permutation of its argument), the backtracking enumeration returns only vertex
+   lists grown from the root ([grown]: start with the root, repeatedly add a vertex adjacent to the list =
+   connected vertex sets containing the root) and it returns every such vertex set that lies inside the
+   node list exactly once ([cnt T out] counts the results equal to T as sets). *)
+Theorem C15_enum_general :
+  forall (ord : list nat -> list nat) (nodes : list nat) (es : list edge) (root : nat),
+    (forall l, Permutation (ord l) l) ->
+    NoDup (nbrs es root) -> memb root (nbrs es root) = false ->
+    (forall c, In c (enum_ord ord (nodes, es) root) -> grown es root c) /\
+    (forall T, grown es root T -> (forall v, memb v T = true -> In v nodes) ->
+               cnt T (enum_ord ord (nodes, es) root) = 1).
+Proof. intros ord nodes es root. exact (enum_general ord es nodes root). Qed.
+Print Assumptions C15_enum_general.
+
+(* non-vacuity: the diamond, root 1, reversed iteration order; [1;0;2;3] is grown and is found once *)
+Example C15_enum_general_nonvacuous :
+  let es := [(0,1);(0,2);(1,2);(1,3);(2,3)] in
+  (forall l : list nat, Permutation (rev l) l) /\ NoDup (nbrs es 1) /\ memb 1 (nbrs es 1) = false
+  /\ grown es 1 [1; 0; 2; 3]
+  /\ cnt [3; 2; 1; 0] (enum_ord (@rev nat) ([0;1;2;3], es) 1) = 1
+  /\ length (enum_ord (@rev nat) ([0;1;2;3], es) 1) = 8.
+Proof.
+  cbv zeta. split; [intros l; apply Permutation_sym, Permutation_rev|].
+  split; [vm_compute; repeat constructor; cbn; intuition discriminate|].
+  split; [reflexivity|]. split; [|split; vm_compute; reflexivity].
+  change [1; 0; 2; 3] with (addv 3 (addv 2 (addv 0 [1]))).
+  repeat (apply g_add; [| reflexivity |]).
+  - apply g_root.
+  - exists 1. split; reflexivity.
+  - exists 0. split; reflexivity.
+  - exists 2. split; reflexivity.
+Qed.
 
 (* BOUNDED (reflection): the backtracking enumeration returns every connected vertex set that
    contains the root exactly once, and nothing else (every graph on <= 5 vertices, every root);
